@@ -15,6 +15,8 @@ BODIES = {
     "argvar": "<{yield \\ if \\ != %d; recur(\\ + 1)}>" % LIM,
     "recurfirst": "<{|i| recur(i + 1); yield i if i != 1 && i < %d}>" % (LIM + 2),
     "deferrecur": "<{|i| defer recur(i + 1); yield i if i != 1 && i < %d}>" % (LIM + 2),
+    "twice": "<{|i, again| yield i if i < %d; recur(i + 1) if again; again := true}>" % LIM,
+    "nested": "<{|n| row := <{|k| yield k if k <= n + 2; recur(k + 1)}>.new(1); yield n * 100 + row.next * 10 + row.next if n <= %d; recur(n + 1)}>" % LIM,
     "twoyields": "<{|i| yield i; yield nil if i != %d; recur(i + 1)}>" % LIM,
 }
 
@@ -108,7 +110,7 @@ def run():
     ck.cov["traces_validated_against_impl"] = len(cases)
     ck.cov["exhaustive"] = not (thorough and len(cases) == 150000)
     ck.cov["rule"] = (f"{len(BODIES)} iterator bodies (guarded counter, unguarded, two-argument state, keyword state, local before yield, implicit argument variables, two "
-                      f"yields, recur / defer recur before a guard with a hole) x every history of {maxops} operations over variables x, y: next, A, list chain, reduce chain on either; y := g.new(..), "
+                      f"yields, recur / defer recur before a guard with a hole, a flag kept in the iterator's own scope, an iterator built inside the body) x every history of {maxops} operations over variables x, y: next, A, list chain, reduce chain on either; y := g.new(..), "
                       "y := x.new(..), y := x._iter, y := x; non-trivial = histories mixing next with a derivation or a walk")
     ck.assumptions = ["StopIterErr outcomes of next are observed through x.try.next.A", "built-in iterators (cursor in a Go closure) are outside the statement"]
     return ck.finish()
